@@ -19,7 +19,8 @@ def make(tier, seed):
 def explore(chk):
     rng = chk.rng
     N = 400 if chk.tier == "quick" else 10000
-    progs = [sccgen.gen_rollup(rng, paint=(i % 3 == 2)) for i in range(N)]
+    progs = [sccgen.gen_rollup(rng, paint=(i % 3 == 2), rich=(i % 2 == 1)) for i in range(N)]
+    progs += [sccgen.gen_mixed(rng, rich=(i % 2 == 1)) for i in range(N // 4)]
     b = core.Batch()
     ops = [b.add("scc.read", "0/1", core.enc(p["text"])) for p in progs]
     out = b.run() if chk.driver_ok else None
